@@ -65,6 +65,35 @@ pub fn to_text(v: &Json) -> String {
     }
 }
 
+/// text of the exact type of the value; with `widen`, every scalar leaf type gets one more member
+/// (a type the value also belongs to, but a different one)
+pub fn type_text(v: &Json, widen: bool) -> String {
+    let leaf = |t: &str| if widen { format!("{t}|{}", if t == "()" { "int" } else { "()" }) } else { t.to_string() };
+    match v {
+        Json::Null => leaf("()"),
+        Json::Bool(_) => leaf("bool"),
+        Json::Number(_) => leaf("int"),
+        Json::String(_) => leaf("string"),
+        Json::Array(xs) => {
+            let mut ms: Vec<String> = xs.iter().map(|x| type_text(x, widen)).collect();
+            ms.sort();
+            ms.dedup();
+            if ms.is_empty() { if widen { "[int]".into() } else { "[]".into() } } else { format!("[{}]", ms.join("|")) }
+        }
+        Json::Object(o) => {
+            if o.contains_key("f") {
+                leaf("float")
+            } else if let Some(Json::Array(xs)) = o.get("t") {
+                format!("({})", xs.iter().map(|x| type_text(x, widen)).collect::<Vec<_>>().join(", "))
+            } else if let Some(Json::Object(fs)) = o.get("s") {
+                format!("struct{{{}}}", fs.iter().map(|(k, x)| format!("{k}: {}", type_text(x, widen))).collect::<Vec<_>>().join(", "))
+            } else {
+                panic!("bad literal model {v}")
+            }
+        }
+    }
+}
+
 /// the model of a real value; None for functions and cells
 pub fn from_var(v: &Variable) -> Option<Json> {
     Some(match v {
